@@ -272,8 +272,10 @@ func (x *Explorer) builtin(fr *frame, in ssa.Instruction, ev *Event, resType typ
 		x.AssumeLEq(res, x.Len(args[1]))
 		// copy(b[lo:], src): lo + n <= len(b), in the shape a cursor update `pos += n` asks for
 		if d := args[0]; d.Kind == KSlice && d.Args[1].Kind != KNone && d.Args[2].Kind == KNone {
-			if _, isPtr := d.Args[0].Type.Underlying().(*types.Pointer); !isPtr {
+			if pt, isPtr := d.Args[0].Type.Underlying().(*types.Pointer); !isPtr {
 				x.AssumeLEq(x.Bin(token.ADD, x.stripWiden(d.Args[1]), res, types.Typ[types.Int]), x.Len(d.Args[0]))
+			} else if at, isArr := pt.Elem().Underlying().(*types.Array); isArr {
+				x.AssumeLEq(x.Bin(token.ADD, x.stripWiden(d.Args[1]), res, types.Typ[types.Int]), x.T.Int(at.Len()))
 			}
 		}
 		return res
